@@ -155,9 +155,12 @@ def check(run):
     run.assumptions = ['scipy.optimize.lsq_linear solves the bounded least-squares problem it is given',
                        'rate objects are pure functions of (n_e, t_e)']
     _r1(run, mi)
+    _r1b(run, mi)
     _r2(run, mi)
     _r3(run, mi)
     _r4(run, mi)
+    _r5(run, mi)
+    _r6(run, mi)
 
 
 # ---------------------------------------------------------------------------------------------
@@ -191,6 +194,30 @@ def _r1(run, mi):
 
 def _mentions_before(fn, st, v, p, deps):
     return True
+
+
+def _r1b(run, mi):
+    """A donor that is given is used: the statement loading the CX rate set is guarded by nullness of the donor / the rate set only."""
+    run.describe('C09-R1b', 'the CX rate set is loaded whenever a donor is given and no set was supplied: no further condition on the loading path')
+    for name, fn in sorted(mi.functions.items()):
+        ps = set(params_of(fn))
+        if 'tcx_donor' not in ps:
+            continue
+        loads = [st for t, v, st in stores(fn) if isinstance(t, ast.Name) and t.id == 'coef_tcx' and isinstance(v, ast.Call)
+                 and dotted(v.func) == 'get_rates_tcx']
+        for st in loads:
+            run.subject('C09-R1b')
+            g = guards_of(fn, st) or []
+            f = facts(g)
+            extra = sorted(a for a in f if not (a[1] in ('is', 'is not') and a[0] in ('tcx_donor', 'coef_tcx') and a[2] == 'None'))
+            # un-decomposed guards (e.g. a negated conjunction) also count as extra conditions
+            if ('tcx_donor', 'is not', 'None') in f and not extra:
+                run.ok('C09-R1b', '%s loads the CX rates' % name, sorted(f))
+            else:
+                run.fail('C09-R1b', '%s|%s|conditional-load' % (MOD, name), FILE, st.lineno,
+                         "%s loads the thermal-CX rate set only under the additional condition %s: when it is false a donor that was given is "
+                         "silently ignored" % (name, extra or sorted(f)))
+    run.floor('C09-R1b', 5)
 
 
 # ---------------------------------------------------------------------------------------------
@@ -373,6 +400,74 @@ def _r3(run, mi):
 
 
 # ---------------------------------------------------------------------------------------------
+def _r5(run, mi):
+    """Species dictionaries {charge: density} are packed into arrays by their charge key."""
+    run.describe('C09-R5', 'dictionary inputs {charge: profile} are stored at the row given by their key (the row index is the charge used downstream)')
+    fn = mi.functions.get('_parameters_to_numpy')
+    if fn is None:
+        raise AnalysisError('anchored function vanished: _parameters_to_numpy')
+    found = 0
+    for lp in [l for l in ast.walk(fn) if isinstance(l, ast.For)]:
+        it = lp.iter
+        base = None
+        if isinstance(it, ast.Call) and isinstance(it.func, ast.Attribute) and it.func.attr in ('items', 'values', 'keys'):
+            base = norm(it.func.value)
+        elif isinstance(it, ast.Call) and dotted(it.func) == 'enumerate' and it.args and isinstance(it.args[0], ast.Call) \
+                and isinstance(it.args[0].func, ast.Attribute) and it.args[0].func.attr in ('items', 'values', 'keys'):
+            base = norm(it.args[0].func.value)
+        if base is None:
+            continue
+        f = facts(guards_of(fn, lp) or [])
+        if not any(a[0] == 'isinstance(%s, dict)' % base and a[1] == 'true' for a in f):
+            continue
+        found += 1
+        run.subject('C09-R5')
+        sts = [st for st in lp.body if isinstance(st, ast.Assign) and isinstance(st.targets[0], ast.Subscript)]
+        ok = False
+        detail = None
+        if isinstance(it.func, ast.Attribute) and it.func.attr == 'items' and isinstance(lp.target, ast.Tuple) and sts:
+            key, val = [e.id for e in lp.target.elts]
+            sl = sts[0].targets[0].slice
+            first = sl.elts[0] if isinstance(sl, ast.Tuple) else sl
+            detail = norm(sts[0])
+            ok = norm(first) == key and val in {n.id for n in ast.walk(sts[0].value) if isinstance(n, ast.Name)}
+        if ok:
+            run.ok('C09-R5', '_parameters_to_numpy dict rows', detail)
+        else:
+            run.fail('C09-R5', '%s|_parameters_to_numpy|dict-row-index' % MOD, FILE, lp.lineno,
+                     "_parameters_to_numpy packs a {charge: profile} dictionary with '%s' (%s): the row is not the dictionary key, so charge states "
+                     "are mixed up whenever the dictionary is not in ascending charge order" % (norm(lp.iter), detail or norm(lp.target)))
+    if not found:
+        run.subject('C09-R5')
+        run.undecided('C09-R5', '_parameters_to_numpy', 'dictionary branch not recognised')
+
+
+def _r6(run, mi):
+    """Memoisation keys are complete: a value cached in module state is keyed by every parameter it depends on."""
+    run.describe('C09-R6', 'results depend on the arguments only: module-level caches are keyed by every parameter the cached value depends on')
+    globals_ = {n for n, v in mi.assigns.items() if isinstance(v, (ast.Dict, ast.Call)) and (isinstance(v, ast.Dict) or dotted(v.func) in ('dict', 'OrderedDict', 'defaultdict'))}
+    n = 0
+    for name, fn in sorted(mi.functions.items()):
+        ps = params_of(fn)
+        deps = Deps(fn)
+        for t, v, st in stores(fn):
+            if isinstance(t, ast.Subscript) and isinstance(t.value, ast.Name) and t.value.id in globals_ and isinstance(st, ast.Assign):
+                n += 1
+                run.subject('C09-R6')
+                keydeps = deps.of_expr(t.slice)
+                valdeps = deps.of_expr(v)
+                # what the value depends on includes the loop/branch that built it
+                missing = sorted(p for p in valdeps if p not in keydeps)
+                if missing:
+                    run.fail('C09-R6', '%s|%s|cache-key:%s' % (MOD, name, t.value.id), FILE, st.lineno,
+                             "%s caches %s in the module-level %s under the key %s, but the cached value also depends on %s: a later call with a "
+                             "different %s gets the stale entry (the result depends on call order)" % (name, norm(v)[:40], t.value.id, norm(t.slice), missing, missing[0]))
+                else:
+                    run.ok('C09-R6', '%s cache %s' % (name, t.value.id), 'key %s covers %s' % (norm(t.slice), sorted(valdeps)))
+    run.subject('C09-R6')
+    run.ok('C09-R6', 'module-level mutable state', '%d module-level containers, %d cache stores' % (len(globals_), n), sample=True)
+
+
 class _Stop(Exception):
     pass
 
@@ -542,9 +637,16 @@ MUTANTS = [
     dict(name='index-slip', file=FILE, find="        matbal[i, i + 1] += coef_recom[i + 1](n_e, t_e)", replace="        matbal[i, i + 1] += coef_recom[i](n_e, t_e)", expect='C09-R4'),
     dict(name='bounds-0-1', file=FILE, find="bounds=(0, n_e)", replace="bounds=(0, 1)", expect='C09-R3'),
     dict(name='cx-not-scaled-by-ne', file=FILE, find="        matbal[0, 1] += tcx_donor_density / n_e * coef_tcx[1](n_e, t_e)", replace="        matbal[0, 1] += tcx_donor_density * coef_tcx[1](n_e, t_e)", expect='C09-R4'),
+    dict(name='donor-ignored-when-density-has-zero', file=FILE, find="    if tcx_donor is not None and coef_tcx is None:\n        coef_tcx = get_rates_tcx(atomic_data, tcx_donor, tcx_donor_charge, element)\n    elif tcx_donor is None:\n        coef_tcx = None\n\n    density = np.zeros((element.atomic_number + 1, *n_e.shape))",
+         replace="    if tcx_donor is not None and coef_tcx is None and np.all(tcx_donor_n):\n        coef_tcx = get_rates_tcx(atomic_data, tcx_donor, tcx_donor_charge, element)\n    elif tcx_donor is None:\n        coef_tcx = None\n\n    density = np.zeros((element.atomic_number + 1, *n_e.shape))", expect='C09-R1b'),
+    dict(name='species-dict-packed-by-position', file=FILE, find="            for key, value in param.items():\n                array[key, ...] =", replace="            for key, value in enumerate(param.values()):\n                array[key, ...] =", expect='C09-R5'),
+    dict(name='rate-cache-key-incomplete', file=FILE, find="    coef_tcx = {}\n    for i in np.arange(1, receiver.atomic_number + 1):\n        coef_tcx[i] = atomic_data.thermal_cx_rate(donor, donor_charge, receiver, int(i))\n\n    return coef_tcx",
+         replace="    key = (atomic_data, donor, receiver)\n    if key not in _CACHE:\n        coef_tcx = {}\n        for i in np.arange(1, receiver.atomic_number + 1):\n            coef_tcx[i] = atomic_data.thermal_cx_rate(donor, donor_charge, receiver, int(i))\n        _CACHE[key] = coef_tcx\n    return _CACHE[key]\n\n\n_CACHE = {}", expect='C09-R6'),
     dict(name='rates-at-swapped-arguments', file=FILE, find="    matbal[0, 0] -= coef_ion[0](n_e, t_e)", replace="    matbal[0, 0] -= coef_ion[0](t_e, n_e)", expect='C09'),
 ]
 TWINS = [
+    dict(name='rate-cache-key-complete', file=FILE, find="    coef_tcx = {}\n    for i in np.arange(1, receiver.atomic_number + 1):\n        coef_tcx[i] = atomic_data.thermal_cx_rate(donor, donor_charge, receiver, int(i))\n\n    return coef_tcx",
+         replace="    key = (atomic_data, donor, donor_charge, receiver)\n    if key not in _CACHE:\n        coef_tcx = {}\n        for i in np.arange(1, receiver.atomic_number + 1):\n            coef_tcx[i] = atomic_data.thermal_cx_rate(donor, donor_charge, receiver, int(i))\n        _CACHE[key] = coef_tcx\n    return _CACHE[key]\n\n\n_CACHE = {}"),
     dict(name='keyword-arguments', file=FILE,
          find="    fractional_abundance = _fractional_abundance(atomic_data, element, n_e, t_e, tcx_donor, tcx_donor_n,\n                                                 tcx_donor_charge)",
          replace="    fractional_abundance = _fractional_abundance(atomic_data, element, n_e=n_e, t_e=t_e, tcx_donor=tcx_donor,\n                                                 tcx_donor_charge=tcx_donor_charge, tcx_donor_n=tcx_donor_n)"),
